@@ -1,151 +1,50 @@
+// gosym: bounded symbolic execution of Go SSA with an SMT solver as the deciding step.
+//
+//	gosym check <PROPERTY> [-tier quick|thorough]   run a property's harness set (driver)
+//	gosym run   -fns A,B [-tier ..] -out f.json      explore harnesses in this process (worker)
+//	gosym list                                       list harnesses found under /verif/harness
 package main
 
 import (
-	"encoding/json"
-	"flag"
-	"regexp"
 	"fmt"
-	"go/types"
 	"os"
-	"path/filepath"
-	"sort"
-	"strings"
-	"time"
-
-	"golang.org/x/tools/go/packages"
-	"golang.org/x/tools/go/ssa"
-	"golang.org/x/tools/go/ssa/ssautil"
-
-	"gosym/sx"
 )
 
-func main() {
-	repo := flag.String("repo", "/repo", "repository root")
-	hdir := flag.String("harness", "/verif/harness", "harness root")
-	rt := flag.String("rt", "/verif/rt/rt.go", "verifrt source")
-	only := flag.String("run", "", "substring filter on harness names")
-	solverBin := flag.String("solver", "z3-new", "solver binary")
-	verbose := flag.Bool("v", false, "verbose")
-	maxPaths := flag.Int("maxpaths", 20000, "path limit per harness")
-	logq := flag.String("logq", "", "log solver queries to file")
-	flag.Parse()
+var (
+	verifRoot = envOr("VERIF_ROOT", "/verif")
+	repoRoot  = envOr("VERIF_REPO", "/repo")
+)
 
-	t0 := time.Now()
-	overlay := map[string][]byte{}
-	b, err := os.ReadFile(*rt)
-	if err != nil {
-		panic(err)
+func envOr(k, d string) string {
+	if v := os.Getenv(k); v != "" {
+		return v
 	}
-	overlay[filepath.Join(*repo, "internal/verifrt/rt.go")] = b
-	if sb, err := os.ReadFile("/verif/sqlmodel/sql.go"); err == nil {
-		overlay[filepath.Join(*repo, "internal/verifsql/sql.go")] = sb
-	}
-	var pats []string
-	filepath.Walk(*hdir, func(p string, info os.FileInfo, err error) error {
-		if err != nil || info.IsDir() || !strings.HasSuffix(p, ".go") {
-			return nil
-		}
-		rel, _ := filepath.Rel(*hdir, p)
-		dir := filepath.Dir(rel)
-		src, _ := os.ReadFile(p)
-		overlay[filepath.Join(*repo, dir, "zz_verif_"+filepath.Base(p))] = src
-		pat := "./" + dir
-		found := false
-		for _, q := range pats {
-			if q == pat {
-				found = true
-			}
-		}
-		if !found {
-			pats = append(pats, pat)
-		}
-		return nil
-	})
-	cfg := &packages.Config{
-		Mode:       packages.LoadAllSyntax,
-		Dir:        *repo,
-		Overlay:    overlay,
-		BuildFlags: []string{"-tags=verif"},
-		Env:        append(os.Environ(), "GOFLAGS=-mod=mod", "GOPROXY=off"),
-	}
-	pkgs, err := packages.Load(cfg, pats...)
-	if err != nil {
-		panic(err)
-	}
-	if n := packages.PrintErrors(pkgs); n > 0 {
+	return d
+}
+
+func main() {
+	if len(os.Args) < 2 {
+		fmt.Fprintln(os.Stderr, "usage: gosym check|run|list ...")
 		os.Exit(2)
 	}
-	prog, spkgs := ssautil.AllPackages(pkgs, ssa.InstantiateGenerics)
-	if os.Getenv("GOSYM_EAGER") != "" {
-		prog.Build()
-	} else {
-		for _, p := range pkgs {
-			if sp := prog.Package(p.Types); sp != nil {
-				sp.Build()
-			}
+	switch os.Args[1] {
+	case "check":
+		os.Exit(cmdCheck(os.Args[2:]))
+	case "run":
+		os.Exit(cmdRun(os.Args[2:]))
+	case "replay":
+		os.Exit(cmdReplay(os.Args[2:]))
+	case "list":
+		hs, err := scanHarnesses()
+		if err != nil {
+			fmt.Fprintln(os.Stderr, err)
+			os.Exit(2)
 		}
-	}
-	fmt.Printf("loaded+built in %v\n", time.Since(t0))
-
-	solver, err := sx.NewSolver(*solverBin, "-in")
-	if err != nil {
-		panic(err)
-	}
-	defer solver.Close()
-	solver2, _ := sx.NewSolver(*solverBin, "-in")
-	defer solver2.Close()
-	shown := 0
-	solver2.RawModel = func(m string) {
-		if shown < 2 {
-			shown++
-			fmt.Println("  RAW MODEL:", m)
+		for _, h := range hs {
+			fmt.Printf("%-12s %-22s %-40s tier=%s native=%v shards=%d weight=%d\n", h.Props, h.Pkg, h.Fn, h.Tier, h.Native, h.Shards, h.Weight)
 		}
-	}
-	solver2.Slow = func(d time.Duration, res string) { fmt.Printf("  slow oneshot query #%d: %v -> %s\n", solver2.Queries, d, res) }
-	solver.Slow = func(d time.Duration, res string) { fmt.Printf("  slow query #%d: %v -> %s\n", solver.Queries, d, res) }
-	if *logq != "" {
-		f, _ := os.Create(*logq)
-		defer f.Close()
-		solver.Log = f
-	}
-	sizes := types.SizesFor("gc", "amd64")
-	for _, sp := range spkgs {
-		if sp == nil {
-			continue
-		}
-		var names []string
-		for n, m := range sp.Members {
-			if _, ok := m.(*ssa.Function); ok && strings.HasPrefix(n, "Verif") && regexp.MustCompile(*only).MatchString(n) {
-				names = append(names, n)
-			}
-		}
-		sort.Strings(names)
-		for _, n := range names {
-			fn := sp.Func(n)
-			x := &sx.Explorer{Solver: solver, Solver2: solver2, Aborted: map[string]int{}, Reached: map[string]int{}, Proved: map[string]int{}, MaxSteps: 2000000, MaxPaths: *maxPaths, Verbose: *verbose}
-			t1 := time.Now()
-			q0, st0 := solver.Queries, solver.Time
-			sx.RunHarness(prog, sizes, fn, x)
-			fmt.Printf("== %s.%s: paths=%d queries=%d solver=%v wall=%v\n", sp.Pkg.Path(), n, x.Paths, solver.Queries-q0, solver.Time-st0, time.Since(t1))
-			for l, c := range x.Reached {
-				fmt.Printf("   assert %-24s reached=%d proved=%d\n", l, c, x.Proved[l])
-			}
-			for r, c := range x.Aborted {
-				fmt.Printf("   aborted x%d: %s\n", c, r)
-			}
-			for i, v := range x.Violations {
-				if i >= 3 {
-					fmt.Printf("   ... %d more violations\n", len(x.Violations)-3)
-					break
-				}
-				js, _ := json.Marshal(v.ReplayScript())
-				rp := fmt.Sprintf("/tmp/replay-%s-%d.json", n, i)
-				os.WriteFile(rp, js, 0o644)
-				fmt.Printf("   VIOLATION %s replay=%s\n", v.Label, rp)
-			}
-		}
-	}
-	for p, e := range sx.InitFailures {
-		fmt.Printf("init failure %s: %s\n", p, e)
+	default:
+		fmt.Fprintln(os.Stderr, "unknown subcommand", os.Args[1])
+		os.Exit(2)
 	}
 }
